@@ -25,7 +25,7 @@ ASSUMPTIONS = [
     "the '# dns_resolver' production is not a sentence of the text language ('#' starts a comment) and is exercised through the builder in C13 only",
     "comments and whitespace are not part of the token sequence",
 ]
-REQUIRED_MONITORS = ["tokens.equal", "tree.reparse", "accepted", "parse.independent"]
+REQUIRED_MONITORS = ["tokens.equal", "tree.reparse", "accepted", "parse.independent", "from_path.same"]
 EXHAUSTIVE_WHEN = ["every_production_chain"]
 
 
@@ -67,6 +67,26 @@ def check_case(case, ctx):
     if str(prof) != out:
         ctx.violation("tree.reparse", "str(profile) differs from as_text()", case)
         return
+    if case.get("via_path"):
+        # the file constructor must give the same profile as the text constructor for the same characters
+        import os
+        import tempfile
+
+        ctx.mon("from_path.same")
+        fd, tmp = tempfile.mkstemp(prefix="vf_c10_", suffix=".profile")
+        try:
+            os.write(fd, text.encode("utf-8"))
+            os.close(fd)
+            try:
+                via = c2profile.C2Profile.from_path(tmp)
+            except Exception as e:  # noqa: BLE001
+                ctx.violation("from_path.same", f"from_path() on a file holding an accepted profile raised {type(e).__name__}: {str(e)[:200]}", case)
+                return
+        finally:
+            os.unlink(tmp)
+        if via.tree != prof.tree or PR.tokenize(via.as_text()) != src_tokens:
+            ctx.violation("from_path.same", "from_path() gives a different profile than from_text() for the same characters (string literals altered?)", case)
+            return
     if case.get("reparse_after_edit"):
         # state must not survive between parses: edit this profile, then parse the same text again
         ctx.mon("parse.independent")
@@ -149,7 +169,12 @@ def run_shard(shard, ctx):
             if ctx.out_of_time():
                 break
             s = PR.gen_profile(rng, max_statements=rng.choice([5, 20, 40, 80]), hostile=rng.random() < 0.7)
-            check_case({"text": PR.render(s.tokens, rng), "kind": "random", "productions": sorted(s.productions), "reparse_after_edit": rng.random() < 0.3}, ctx)
+            text = PR.render(s.tokens, rng)
+            via_path = rng.random() < 0.25
+            if via_path and rng.random() < 0.6:
+                # Windows line endings in the file and raw CR / CRLF inside multi-line literals
+                text = text.replace("\n", "\r\n")
+            check_case({"text": text, "kind": "random", "productions": sorted(s.productions), "reparse_after_edit": rng.random() < 0.3, "via_path": via_path}, ctx)
     elif kind == "everything":
         # one profile with every production chain concatenated
         toks = []
